@@ -181,7 +181,11 @@ var AllPageSizes = []int{512, 1024, 2048, 4096, 8192, 16384, 32768, 65536}
 
 // Profiles returns the corpus database profiles for a tier.  The list is a
 // function of tier and seed only.
-func Profiles(tier string, seed int64) []M {
+func Profiles(tier string, seed int64) []M { return ProfilesReps(tier, seed, 3) }
+
+// ProfilesReps is Profiles with a chosen number of repetitions of the thorough page-size x variant grid
+// (every database gets its own PRNG stream, so repetitions differ in content).
+func ProfilesReps(tier string, seed int64, reps int) []M {
 	var out []M
 	add := func(m M) { out = append(out, m) }
 	if tier != "thorough" {
@@ -201,7 +205,7 @@ func Profiles(tier string, seed int64) []M {
 		add(M{"page_size": 512, "rows": 40, "features": []string{"plain", "alias", "pk", "cpk", "wr", "wr2", "alter", "misc", "wide"}})
 		return out
 	}
-	for rep := 0; rep < 3; rep++ {
+	for rep := 0; rep < reps; rep++ {
 		for i, ps := range AllPageSizes {
 			for v := 0; v < 6; v++ {
 				if rep > 0 && (v == 2 || v == 4) && ps >= 8192 {
